@@ -32,6 +32,9 @@ pub struct GenCfg {
     pub formats_have_path: bool,
     /// rich formats (many fields) or minimal ones
     pub rich_formats: bool,
+    /// out of 4: how many tests are drawn from the "passes for most files" vocabulary (C16 wants
+    /// records to be emitted; 0 = fully discriminating tests)
+    pub likely_true: u64,
 }
 
 #[derive(Clone, Copy, Debug, PartialEq, Eq)]
@@ -83,6 +86,16 @@ pub fn out_file(i: usize) -> String {
 
 fn cmp_prefix(rng: &mut Rng) -> &'static str {
     *rng.pick(&["", "", "+", "-"])
+}
+
+fn likely_true_test(rng: &mut Rng) -> String {
+    // simulated files have times within 200 days before the compile clock, sizes >= 1, uids < 70000
+    rng.pick(&[
+        "-true", "-true", "-mtime -300", "-atime -250", "-ctime -9999h", "-mmin -999999", "-name '*'", "-path 'd*'",
+        "-iname '*'", "-name ?*", "-type f,d,l,p", "-size +0c", "-uid -70000", "-gid -5000", "-links -9", "-perm -000",
+        "-inum +0", "-stripe-count +0", "! -false", "-ipath 'D*'",
+    ])
+    .to_string()
 }
 
 fn time_test(rng: &mut Rng) -> String {
@@ -291,13 +304,16 @@ fn render(node: &Node, rng: &mut Rng, out: &mut String, top: bool) {
 pub fn expression(rng: &mut Rng, cfg: &GenCfg) -> String {
     let mut leaves: Vec<Node> = vec![];
     for _ in 0..cfg.matchers {
-        leaves.push(Node::Leaf(matcher_test(rng, cfg), false));
+        let t = if rng.below(4) < cfg.likely_true { likely_true_test(rng) } else { matcher_test(rng, cfg) };
+        leaves.push(Node::Leaf(t, false));
     }
     for _ in 0..cfg.time_tests {
-        leaves.push(Node::Leaf(time_test(rng), false));
+        let t = if rng.below(4) < cfg.likely_true { likely_true_test(rng) } else { time_test(rng) };
+        leaves.push(Node::Leaf(t, false));
     }
     for _ in 0..cfg.fillers {
-        leaves.push(Node::Leaf(filler_test(rng), false));
+        let t = if rng.below(4) < cfg.likely_true { likely_true_test(rng) } else { filler_test(rng) };
+        leaves.push(Node::Leaf(t, false));
     }
     rng.shuffle(&mut leaves);
     // actions are inserted at random positions but keep their relative order
